@@ -328,9 +328,9 @@ class IMAPSearch:
         """
         header = self.args["header"]
         msg = self.ctx.msg()
-        return (
-            header in msg
-            and msg[header].lower().find(self.args["string"]) != -1
+        return any(
+            str(value).lower().find(self.args["string"]) != -1
+            for value in msg.get_all(header, [])
         )
 
     #########################################################################
